@@ -323,6 +323,23 @@ def py_mon_C05(c):
                 return ("the command of step %d started %d us after the DAG deadline" % (e["i"], e["t"] - T), {"kind": "start-after-deadline"})
         for i in open_at(c, len(evs)):
             return ("step %d never ended" % i, {"kind": "hung"})
+        # an attempt that fails after the deadline is the step's last one, whatever its retry policy says (the deadline is
+        # tested before the retry policy): the step is not launched again, and its retry count only counts failures from
+        # before the deadline.  (Exact: the deadline is g.StartAt() + timeout on the clock of the events; 1 us rounding.)
+        for i in range(len(c["steps"])):
+            mine = [e for e in evs if e["e"] in ("s", "e", "x") and e.get("i") == i]
+            failed = [(p, e) for p, e in enumerate(mine) if e["e"] in ("e", "x") and not e.get("ok", False)]
+            late = [p for p, e in failed if e["t"] > T + 1]
+            if late and len(mine) > late[0] + 1:
+                nxt = mine[late[0] + 1]
+                return ("step %d was launched again %d us after the DAG deadline: its attempt had been cut by the deadline "
+                        "(ended %d us after it) and it had retries left (limit %d)"
+                        % (i, nxt["t"] - T, mine[late[0]]["t"] - T, c["steps"][i].get("rlimit", 0)), {"kind": "retry-after-deadline"})
+            early = sum(1 for p, e in failed if e["t"] <= T + 1)
+            if i < len(c["final"]) and c["final"][i]["rc"] > early:
+                return ("step %d ends with retry count %d but only %d of its attempts failed before the DAG deadline: an attempt "
+                        "cut by the deadline was treated as an ordinary failure and retried"
+                        % (i, c["final"][i]["rc"], early), {"kind": "retry-after-deadline"})
         cut = [p for p, e in enumerate(evs) if e["e"] == "e" and e["t"] >= T and not e.get("ok", False)]
         for e in evs:
             if e["e"] == "e" and e["t"] > T + 20000 and any(q["e"] == "s" and q["i"] == e["i"] and q["t"] < T for q in evs):
@@ -471,6 +488,15 @@ def agent_stop_monitor(c):
     if c["sub"] == "killbeforerun" and (c["stop_to_end_ms"] > 1500 or not c["err"]):
         return ("the command executor lost a signal that arrived before its process existed: Run took %d ms (error %r)"
                 % (c["stop_to_end_ms"], c["err"]))
+    if c["sub"] == "httpsos":
+        bound = c["max_cleanup_s"] * 1000 + 3000 + 2500
+        if c["stop_to_end_ms"] > min(bound, c["sleep_s"] * 1000 - 1500):
+            return ("stop over the agent's socket handler (POST /stop), step with signalOnStop SIGINT whose process ignores "
+                    "SIGINT: it was not force-killed - the run ended %d ms after the stop request (MaxCleanUpTime %d s; the "
+                    "command's own end: %d s): the SIGKILL after MaxCleanUpTime did not reach it as SIGKILL"
+                    % (c["stop_to_end_ms"], c["max_cleanup_s"], c["sleep_s"]))
+        if not c.get("exit_ran"):
+            return "stop over the agent's socket handler: the run ended canceled but the onExit handler did not run"
     if c["sub"] == "ignoreterm":
         # MaxCleanUpTime, plus the 3 s granularity of agent.signal's wait loop, plus tolerance; and well before the
         # command's own end
@@ -496,11 +522,11 @@ def agent_stop_part(ctx, tool):
         why = agent_stop_monitor(c)
         if why is not None:
             ctx.fail("monitor", "C05: " + why, c, cls={"kind": "agent-" + c["sub"]})
-    ctx.cov["agent_real_process_runs"] = [{k: c[k] for k in ("sub", "max_cleanup_s", "sleep_s", "stop_to_end_ms", "status", "child_alive")} for c in cases]
+    ctx.cov["agent_real_process_runs"] = [{k: c[k] for k in ("sub", "max_cleanup_s", "sleep_s", "stop_to_end_ms", "status", "child_alive", "exit_ran") if k in c} for c in cases]
     ctx.cov["agent_real_process_s"] = round(dt, 1)
 
 
-def run_family2(ctx, pid, replay_cases=None):
+def run_family2(ctx, pid, replay_cases=None, agent_again=False):
     extra = ["Sched/Check2.vo"]
     from props import agent_lib
     if pid == "C04":
@@ -550,7 +576,7 @@ def run_family2(ctx, pid, replay_cases=None):
                     ctx.fail("monitor", "C04: " + why, c, cls={"kind": "agent-" + c["class"], "sub": c["sub"]})
             agent_lib.check_model(ctx, acases, tag="c04_agent")
             ctx.cov["agent_precondition_runs"] = agent_lib.summary(acases)
-    if pid == "C05" and replay_cases is None:
+    if pid == "C05" and (replay_cases is None or agent_again):
         agent_stop_part(ctx, tool)
     ctx.cov["trusted_base"] += [
         "Sched model (coq/Sched/Model.v): goroutine scheduling = arbitrary interleaving of the mutex-delimited sections of "
@@ -590,4 +616,6 @@ def replay_family2(ctx, pid, path):
         if isinstance(body.get(k), dict) and "steps" in body[k]:
             cases.append(body[k])
     cases = [dict(c) for c in cases for _ in range(int(body.get("repeat", 5)))]
-    return run_family2(ctx, pid, replay_cases=cases)
+    # a failure of the agent-level real-process part: that part (fixed cases) is run again
+    again = any(isinstance(f.get("case"), dict) and f["case"].get("class") == "agentstop" for f in body.get("failures", []))
+    return run_family2(ctx, pid, replay_cases=cases, agent_again=again)
